@@ -331,26 +331,39 @@ Definition batch_columnar (p : plan) (rows : list row) : bool :=
                     | _ => false
                     end) (p_metrics p).
 
-Record sink_st := { sk_groups : list (gkey * list agg); sk_col : option (list agg) }.
+Record sink_st := {
+  sk_groups : list (gkey * list agg);   (* row-path entries (and all entries of grouped plans) *)
+  sk_col : option (list agg);           (* the columnar path's ungrouped entry *)
+  sk_all : list agg                     (* what a single ungrouped entry would hold *)
+}.
 
 Definition sink_batch (p : plan) (ng nf : nat) (st : sink_st) (rows : list row) : sink_st :=
   let crs := cells_of_batch ng nf rows in
+  let all := fold_left (upd_all (p_metrics p)) crs (sk_all st) in
   if agg_columnar_default_prehash_zero && ungrouped p && batch_columnar p rows
   then {| sk_groups := sk_groups st;
           sk_col := Some (fold_left (upd_all (p_metrics p)) crs
-                            (match sk_col st with Some a => a | None => init_all (p_metrics p) end)) |}
-  else {| sk_groups := fold_left (sink_step p) crs (sk_groups st); sk_col := sk_col st |}.
+                            (match sk_col st with Some a => a | None => init_all (p_metrics p) end));
+          sk_all := all |}
+  else {| sk_groups := fold_left (sink_step p) crs (sk_groups st); sk_col := sk_col st; sk_all := all |}.
 
-(** the possible outputs of one flow *)
+(** the possible outputs of one flow.  When both ungrouped entries exist, [into_partial]
+    keeps the row-path one or the columnar one; with probability about 1/128 the two
+    hashes share hashbrown's 7-bit tag, the lookup finds the other entry (the keys are
+    [Eq]) and there is a single entry holding all rows. *)
 Definition flow_alts (p : plan) (ng nf : nat) (batches : list (list row))
   : list (list (gkey * list agg)) :=
-  let st := fold_left (sink_batch p ng nf) batches {| sk_groups := []; sk_col := None |} in
+  let st := fold_left (sink_batch p ng nf) batches
+                      {| sk_groups := []; sk_col := None; sk_all := init_all (p_metrics p) |} in
   let main := map (wire_row p) (sk_groups st) in
   match sk_col st with
   | None => [main]
   | Some a =>
       let c := [((None, []), map wire a)] in
-      match sk_groups st with [] => [c] | _ => [main; c] end
+      match sk_groups st with
+      | [] => [c]
+      | _ => [main; c; [((None, []), map wire (sk_all st))]]
+      end
   end.
 
 (** coordinator: merge the rows of all flows by key *)
